@@ -224,12 +224,14 @@ def rt2tr(R, t, check=False):
     if check and not isR(R):
         raise ValueError('Invalid rotation matrix')
 
+    # symbolic entries need an object array (as r2t does)
+    dtype = 'O' if R.dtype == 'O' or t.dtype == 'O' else None
     if R.shape == (2, 2):
-        T = np.eye(3)
+        T = np.eye(3, dtype=dtype)
         T[:2, :2] = R
         T[:2, 2] = t
     elif R.shape == (3, 3):
-        T = np.eye(4)
+        T = np.eye(4, dtype=dtype)
         T[:3, :3] = R
         T[:3, 3] = t
     else:
